@@ -776,3 +776,72 @@ _run_c02_18 = run
 def run(res, facts, tier):
     _run_c02_18(res, facts, tier)
     r8_parent(res, facts)
+
+
+# ----------------------------------------------------------------------------------------------- R9: recycled XObjects forget what they cached
+CACHE_EXEMPT = {
+    'XObject::m_memoryManager': 'not derived from the value',
+    'XStringBase::m_resultTreeFrag': 'a proxy that refers back to the object and reads its value when asked; holds no copy',
+}
+
+
+def r9_recycled(res, facts):
+    r = res.rule('C02-R9', 'XObjectFactoryDefault takes XString / XNumber / XNodeSet objects from its caches and gives them a new value through set(): that method (with the members '
+                 'it calls) re-initialises every mutable member of the class and of its bases — the values cached from the previous value (number of a string, string of a number, ...)', floor=4)
+    n_sites = 0
+    for a in facts.asts_t('XObjectFactoryDefault::createString') + facts.asts('XObjectFactoryDefault::createNumber', must=False) + facts.asts('XObjectFactoryDefault::createNodeSet', must=False):
+        cs = list(calls(a['body']))
+        if not any(c.get('n') == 'pop_back' for c in cs):
+            continue
+        for c in cs:
+            if c.get('k') == 'MCall' and c.get('n') in ('set', 'reset', 'assign') and (c.get('cls') or '').startswith('xalanc_1_12::X') and 'Vector' not in (c.get('cls') or ''):
+                n_sites += 1
+                cls = c['cls']
+                # mutable members of the class and its bases
+                chain = []
+                todo = [cls]
+                while todo:
+                    k = todo.pop()
+                    if k in chain or k not in facts.K:
+                        continue
+                    chain.append(k)
+                    todo += facts.K[k].get('bases', [])
+                muts = [(short(k) + '::' + fl['n']) for k in chain for fl in facts.K[k].get('fields', []) if fl.get('mutable')]
+                # fields written by the re-initialising method and the members of the chain it calls (depth 3)
+                written = set()
+                seen = set()
+                work = [(c.get('usr'), 0)]
+                while work:
+                    u, d = work.pop()
+                    if u in seen or u is None:
+                        continue
+                    seen.add(u)
+                    for w in facts.W:
+                        if w['from'] == u:
+                            written.add(short(w['field']))
+                    if d < 3:
+                        b = facts.ast(u)
+                        if b is not None:
+                            for cc in calls(b['body']):
+                                if cc.get('k') == 'MCall' and cc.get('usr') and (strip_casts(cc.get('obj')) is None or strip_casts(cc['obj']).get('k') == 'This'):
+                                    work.append((cc['usr'], d + 1))
+                for m in muts:
+                    site = '%s recycled through %s(): %s' % (short(cls), c['n'], m.split('::')[-1])
+                    if m in CACHE_EXEMPT:
+                        r.ok(site, 'exempt: ' + CACHE_EXEMPT[m])
+                    elif m in written:
+                        r.ok(site, 're-initialised')
+                    else:
+                        r.violation(site, '%s keeps %s from its previous value when the factory re-uses it: a value derived from the old contents is returned for the new ones' % (short(cls), m),
+                                    common.file_line(a, c))
+    if n_sites < 3:
+        raise AnalysisBroken('only %d recycle sites found in XObjectFactoryDefault (XString, XNumber, XNodeSet expected)' % n_sites)
+    return r
+
+
+_run_c02_19 = run
+
+
+def run(res, facts, tier):
+    _run_c02_19(res, facts, tier)
+    r9_recycled(res, facts)
